@@ -34,53 +34,9 @@ def _run_variant(args):
     prop, root, rel_edits = args
     base = Repo(root)
     overrides: Dict[str, str] = {}
-    if rel_edits == "__RENAME_LOCALS__":
-        # generic twin: every local variable of every function renamed consistently (alpha-renaming)
-        import ast as _ast
-
-        def _rename(fn):
-            params = {a.arg for a in fn.args.args + fn.args.kwonlyargs + fn.args.posonlyargs}
-            if fn.args.vararg:
-                params.add(fn.args.vararg.arg)
-            if fn.args.kwarg:
-                params.add(fn.args.kwarg.arg)
-            stored, declared = set(), set()
-            for n in _ast.walk(fn):
-                if isinstance(n, _ast.Name) and isinstance(n.ctx, (_ast.Store, _ast.Del)):
-                    stored.add(n.id)
-                if isinstance(n, (_ast.Global, _ast.Nonlocal)):
-                    declared |= set(n.names)
-            loc = stored - params - declared - {"_"}
-            for n in _ast.walk(fn):
-                if isinstance(n, _ast.Name) and n.id in loc:
-                    n.id = n.id + "_r"
-
-        def _outer(node):
-            for ch in _ast.iter_child_nodes(node):
-                if isinstance(ch, (_ast.FunctionDef, _ast.AsyncFunctionDef)):
-                    _rename(ch)
-                else:
-                    _outer(ch)
-        for rel, m in base.modules.items():
-            if rel.startswith(("tests/", "scripts/", "experiments/")):
-                continue
-            try:
-                tree = _ast.parse(m.source)
-                _outer(tree)
-                overrides[rel] = _ast.unparse(tree) + "\n"
-            except Exception:
-                pass
-        rel_edits = {}
-    if rel_edits == "__REFORMAT__":
-        # generic twin: every program module re-emitted by ast.unparse (comments gone, layout and line numbers changed)
-        import ast as _ast
-        for rel, m in base.modules.items():
-            if rel.startswith(("tests/", "scripts/", "experiments/")):
-                continue
-            try:
-                overrides[rel] = _ast.unparse(_ast.parse(m.source)) + "\n"
-            except Exception:
-                pass
+    if isinstance(rel_edits, str) and rel_edits.startswith("__TWIN__:"):
+        from . import twins as _twins
+        overrides = _twins.program(base.modules, rel_edits.split(":", 1)[1])
         rel_edits = {}
     for rel, edits in rel_edits.items():
         m = base.modules.get(rel)
@@ -114,8 +70,13 @@ def run(prop: str, ctx: Context, seed: int) -> int:
     except ModuleNotFoundError:
         spec = None
     mutants = getattr(spec, "MUTANTS", [])
-    twins = list(getattr(spec, "TWINS", [])) + [{"name": "whole program re-emitted by ast.unparse (layout, comments and line numbers change)", "edits": "__REFORMAT__"},
-                                                   {"name": "every local variable of every function renamed (alpha-renaming)", "edits": "__RENAME_LOCALS__"}]
+    twins = list(getattr(spec, "TWINS", [])) + [
+        {"name": "whole program re-emitted by ast.unparse (layout, comments and line numbers change)", "edits": "__TWIN__:reformat"},
+        {"name": "every local variable of every function renamed (alpha-renaming)", "edits": "__TWIN__:rename-locals"},
+        {"name": "every if/else swapped under the negated test", "edits": "__TWIN__:swap-branches"},
+        {"name": "every comparison mirrored (a < b as b > a)", "edits": "__TWIN__:flip-compares"},
+        {"name": "guard clauses, De Morgan on every and/or test, augmented assignments expanded, in-tuple tests spelt with ==, positional arguments by keyword",
+         "edits": "__TWIN__:restructure"}]
     jobs = [(prop, ctx.repo.root, m["edits"]) for m in mutants] + [(prop, ctx.repo.root, t["edits"]) for t in twins]
     with ProcessPoolExecutor(max_workers=min(16, max(1, len(jobs)))) as ex:
         results = list(ex.map(_run_variant, jobs))
